@@ -23,7 +23,7 @@ CLAIMS = {
          "Lean 4 proof + twin-run differential check"),
  "C18": ("Proved: the reserve TWAP lies between the lowest and highest in-effect spot price for every snapshot list and interval (calcTwap_within / _const / _zero), and the snapshot discipline (one per block, newest mirrors reserves) is an invariant of every vAMM call under a monotone clock; "
          "the price feed part (latest / n-back / TWAP) is checked by Spec.C18F on the real margined_pricefeed and by model correspondence.",
-         "Feed theorems are being added; the feed spec applies to submissions with non-decreasing, non-future timestamps as the property states.",
+         "Feed theorems are in Props.C18F (latest / n-back / TWAP bounds, role guards); the feed spec applies to submissions with non-decreasing, non-future timestamps as the property states.",
          "Lean 4 proof (weighted-average bounds by induction over the snapshot list) + differential correspondence"),
  "C19": ("Every clause of the property is a Lean theorem over all operands (both flags, all magnitudes < 2^128) of a model that mirrors integer.rs branch by branch; `spec_model` proves the observation-level predicate Spec.C19 of the model, "
          "and the same predicate is evaluated on the real Integer API's answers on every run while model and implementation are compared case by case.",
@@ -34,11 +34,11 @@ CLAIMS = {
 CLAIMS.update({
  "C03": ("Proved for the world model: every ledger primitive, every message of the dispatcher tree and every transaction of every kind conserves the total collateral (Dispatch.exec_total / applyTx_total / step_total, induction over the dispatcher's fuel); "
          "frames show that vAMM messages move no collateral. The recipient clauses are evaluated by Spec.C03 on every transaction of generated histories (balances of all accounts decoded before/after, transfer events) and the model's transfer log is compared with the implementation's.",
-         "Permitted-recipient clause is checked on the implementation and by model correspondence; its world-level theorem is in progress (WorldInv).",
+         "Permitted-recipient clause: WorldMore.engine_tx_log_permitted / engine_tx_balances_frame / liquidated_trader_balance (every transfer of an engine transaction has both endpoints among sender, engine, fund, fee pool; every other balance unchanged).",
          "Lean 4 proof (mutual induction over the dispatcher model) + Spec on implementation observations + correspondence"),
  "C08": ("Proved for the dispatcher model: the engine's reply turns every reported failure into a failure, a failing sub-message with ReplyOn Always/Error fails the engine's response and with Never/Success fails any contract's response, and a successful response implies success of each sub-message, its reply and everything that reply dispatched (Dispatch.replyErr_is_error, execSubs_head_error(_never), execSubs_cons_ok). "
          "Spec.C08 checks on every transaction of generated histories that a failed call leaves all decoded storage and balances unchanged and that no tmp-swap / sent-funds / tmp-liquidator record remains.",
-         "Transaction atomicity itself is the host's (cw-multi-test) behaviour, stated as an assumption; single-fault injection at every sub-message is being added to the harness.",
+         "Transaction atomicity itself is the host's (cw-multi-test) behaviour, stated as an assumption; single-fault injection at every sub-message is part of every run (fault mode).",
          "Lean 4 proof + Spec on full storage dumps"),
  "C09": ("Role theorems proved for the vAMM (swaps/settlement only by the engine, config/owner only by the owner, set_open only by owner or insurance fund, transfer of ownership moves the right) and the price feed; engine / insurance fund / fee pool role theorems are in EngineGuards. "
          "Spec.C09 evaluates every execute variant of all five contracts by every kind of sender on generated histories: an accepted privileged call must come from the role holder of the pre-state, and ownership transfers must take effect.",
@@ -59,10 +59,10 @@ CLAIMS.update({
 CLAIMS.update({
  "C02": ("Handler level proved: every reply handler changes the stored size by exactly the base amount the vAMM reports, with the direction's sign (EngineMoney: partialLiquidationReply_spec, closePositionReply_spec, liquidateReply_spec, reversePositionReply_fees; updateReserve moves the vAMM's net by the same amount, C01.ur_add/ur_rem), a reducing or partially closing trade never flips a position (CurveNoFlip, under the regular-curve side conditions), and no transaction touches another trader's position or leaves residue (WorldInv). The world-level invariant (Mirror.mirror_invariant_partial) is being assembled from these. "
          "Spec.C02 evaluates 'sum of all decoded positions = vAMM net' after EVERY transaction (successful or not) of every generated history; it found the partial-liquidation defect that was repaired (fix 4aa1bc2).",
-         "World-level theorem in progress; the partial-close-of-a-short no-flip lemma needs spot price >= 1 (counterexample at price 1/9 is a checked example).",
+         "World-level theorem Mirror.mirror_invariant_partial2 / mirror_along_history2 (inductive invariant over every transaction kind) holds under NotRewire, CurveRegular (the partial-close-of-a-short no-flip lemma needs spot price >= 1; counterexample at price 1/9 is a checked example) and no vAMM at the empty-address sentinel (the statement without it is refuted by a kernel-evaluated history).",
          "Lean 4 proof (handler inversions, curve arithmetic) + Spec on full storage dumps + correspondence"),
  "C04": ("Proved (EngineMoney): a whole close pays exactly margin + realised PnL - funding (calcRemainMargin_spec, closePositionReply_spec), is rejected with bad debt, erases the position and leaves other positions alone; a partial close with bad debt is rejected; withdraw() books exactly the vault's shortfall as prepaid bad debt and requests exactly that from the insurance fund (withdraw_spec). Spec.C04 recomputes the equity from observations (position, cumulative fraction, quote moved by the vAMM) and compares it with the transfers to the trader, and checks the insurance-fund drain bound on every trader-initiated call.",
-         "The transaction-level composition (handler + dispatcher) is validated by correspondence on every generated close; its Lean proof is handler-level.",
+         "Transaction level: SatB.sat_C04 (the whole Spec.C04 predicate of the model's step, all flows, both collateral kinds).",
          "Lean 4 proof (handler inversion, Int arithmetic) + Spec on implementation observations + correspondence"),
  "C05": ("Proved: leverage below 1 or above 1/initial ratio rejects the whole transaction (WorldInv.leverage_tx_rejected), the last guard of every open flow is margin ratio >= maintenance on the stored post-trade position and the ratio does not depend on the fields changed afterwards (EngineMoney.updatePositionReply_ratio), withdrawal reduces the margin by amount + funding, moves the checkpoint and is covered by free collateral, deposit raises the margin by exactly the amount taken (withdrawMargin_spec, depositMargin_spec). Spec.C05 checks the same on the implementation with the engine's own ratio / free-collateral definitions (validated by QRY correspondence).",
          "",
@@ -71,7 +71,7 @@ CLAIMS.update({
          "",
          "Lean 4 proof + Spec on implementation observations + correspondence"),
  "C07": ("The full liveness statement is FALSE of the unchanged code; known findings C07-F2 (partial path arithmetic underflow for under-water positions; a checked witness is LiqTwin.partial_path_underflows) and C07-F3 (repository price feed unreadable by the vAMM) are reported as KNOWN-FINDING. Proved partial results: the execute half of Liquidate has no failure path of its own on the full-liquidation path (LiqTwin.liquidate_full_path_live), liquidation and funding ignore the pause flag (EngineGuards). Spec.C07 evaluates the property's precondition on every attempted liquidation and flags any rejection whose error class is not one of the listed findings.",
-         "Liveness through the dispatcher (transfers, insurance fund) is checked on the implementation only.",
+         "Liveness through the dispatcher is proved for the full-liquidation sub-case (SatD.sat_C07: forward simulation of liquidate, swap, reply and every transfer); outside it the model reproduces the listed findings (witness worlds in SatDWitness).",
          "Lean 4 partial proof + checked counter-witness + Spec (liveness monitor) on implementation"),
  "C10": ("Proved for the world model (WorldInv.others_untouched): for every transaction of every kind, the stored position of any trader other than the sender (and the trader named by a Liquidate) is unchanged, not created and not removed; execute and every reply write only the in-flight trader's key. Spec.C10 compares the whole decoded position bucket before/after every transaction.",
          "Position keys are assumed injective in (vamm, trader); key-alias probes (suffix-related account names) are part of the generator.",
@@ -87,13 +87,28 @@ CLAIMS.update({
          "Lean 4 proof + history-aware Spec on implementation observations + correspondence"),
 })
 
+REFINE = {
+ "C01": "SatA.sat_C01", "C02": "SatA.sat_C02", "C03": "SatA.sat_C03", "C04": "SatB.sat_C04", "C05": "SatC.sat_C05",
+ "C06": "SatD.sat_C06", "C07": "SatD.sat_C07 (sub-case) / sat_C07_general", "C08": "SatA.sat_C08", "C09": "SatF.sat_C09",
+ "C10": "SatA.sat_C10", "C11": "SatE.sat_C11 / C11_tags", "C12": "SatB.sat_C12", "C14": "SatF.sat_C14 / tags_C14",
+ "C15": "SatE.sat_C15 / C15_tags", "C16": "SatC.sat_C16", "C17": "SatE.sat_C17", "C18": "SatA.sat_C18", "C20": "SatC.sat_C20",
+}
+
+def refine_text(pid):
+    if pid not in REFINE:
+        return ""
+    return (f" Refinement layer: {REFINE[pid]} proves, for every world, block, sender, funds and transaction, that the observation record of the "
+            f"MODEL's step (Props.ModelStep.modelStep) satisfies the same decidable predicate Spec.{pid}.check that this check evaluates on the "
+            "implementation's observations (hypotheses: invariants proved preserved by World.step, deployment wiring, or preconditions of the "
+            "property; each with a kernel-evaluated witness that it is needed; see DESIGN.md §7.1).")
+
 NOT_YET = "not claimed in this commit: world-level model/theorems under construction (DESIGN.md §8 build order)"
 
 def chk(pid, text, note, tech):
     return {"property_id": pid, "quick_cmd": f"./check {pid} --tier quick", "thorough_cmd": f"./check {pid} --tier thorough",
             "evidence_file": f"/verif/evidence/{pid}.json", "replay_cmd_template": f"./check {pid} --replay {{path}}",
             "engine": "lean-proof+correspondence",
-            "level_claimed": {"category": "proof", "text": text, "design_ref": "DESIGN.md §7 " + pid},
+            "level_claimed": {"category": "proof", "text": text + refine_text(pid), "design_ref": "DESIGN.md §7 " + pid},
             "level_note": TRUST + note, "technique": tech}
 
 def main():
